@@ -291,6 +291,11 @@ pub fn run(args: &[String]) -> i32 {
                     _ => false,
                 }
             })),
+            // acronyms are converted in declarations and in every reference alike (the extra source of this case declares
+            // AccountId and uses it as a map key, a generic argument and an alias target)
+            ("generic-base-go-acronym-references", Lang::Go, "[go]\npackage = \"p\"\nuppercase_acronyms = [\"ID\"]\n[go.type_mappings]\nDateTime = \"string\"\nStamped = \"string\"\n".into(), Box::new(|t: &str| {
+                t.contains("type AccountID ") && !t.split(|c: char| !c.is_alphanumeric() && c != '_').any(|w| w == "AccountId")
+            })),
             ("uppercase_acronyms-absent", Lang::Go, "[go]\npackage = \"p\"\n[go.type_mappings]\nDateTime = \"string\"\n".into(), Box::new(|t: &str| t.contains("UserId uint32"))),
             ("no_pointer_slice-true", Lang::Go, "[go]\npackage = \"p\"\nno_pointer_slice = true\n[go.type_mappings]\nDateTime = \"string\"\n".into(), Box::new(|t: &str| t.contains("Items []uint32 "))),
             ("no_pointer_slice-false", Lang::Go, "[go]\npackage = \"p\"\nno_pointer_slice = false\n[go.type_mappings]\nDateTime = \"string\"\n".into(), Box::new(|t: &str| t.contains("Items *[]uint32 "))),
@@ -310,6 +315,9 @@ pub fn run(args: &[String]) -> i32 {
                 sc.write("ws/app/src/lib.rs", SRC.as_bytes());
                 if name.starts_with("generic-base") {
                     sc.write("ws/app/src/receipts.rs", b"#[typeshare]\npub struct Receipt { pub stamp: Stamped<OffsetDateTime>, pub blank: Stamped<()> }\n");
+                    if name.contains("acronym") {
+                        sc.write("ws/app/src/ledger.rs", b"#[typeshare]\npub struct AccountId { pub v: u32 }\n#[typeshare]\npub struct Ledger { pub by_id: HashMap<AccountId, String>, pub wrapped: Wrapper<AccountId>, pub all: Vec<AccountId> }\n#[typeshare]\npub type AccountIds = Vec<AccountId>;\n");
+                    }
                 }
                 let (extra, cwd) = if via == "-c" {
                     sc.write("elsewhere/custom.toml", toml.as_bytes());
